@@ -12,7 +12,7 @@ NOTES = ('All checks are bounded: each harness is decided by the SAT solver for 
          'nothing outside the bounds written in its evidence file (coverage.bounds / outside_bounds / samples[].domain). '
          'Exit 2 = inconclusive (time-out, OOM, harness no longer compiles against the code, counter-example not reproduced natively).')
 
-_PENDING = 'check not built yet in this session (see DESIGN.md section 5 for the plan); will be claimed once its harnesses run'
+_PENDING = 'check built but not yet validated on the unchanged tree in this session (see DESIGN.md section 10); claimed once its quick tier passes'
 
 NOT_APPLICABLE = {
     'C05': 'every clause needs true spherical distances (haversine, asin o sqrt, f64 % f64 envelope) inside a recursive heap-allocating search; a bit-precise solver has no theory of sin/cos and contract stubs make the statement vacuous (DESIGN.md section 6)',
@@ -20,10 +20,97 @@ NOT_APPLICABLE = {
     'C13': 'SIN projection + Mahalanobis overlap heuristic on real trigonometry; the only discrete clause is a one-line guard (DESIGN.md section 6)',
     'C20': 'quantifies over thread interleavings of an unsynchronised static mut read; Kani does not model threads and no other symbolic engine for Rust concurrency is installed (DESIGN.md section 6)',
 }
-for _p in ('C01', 'C02', 'C03', 'C06', 'C07', 'C08', 'C09', 'C10', 'C11', 'C14', 'C15', 'C17', 'C19'):
-    NOT_APPLICABLE.setdefault(_p, _PENDING)
+
+# properties whose check is registered in MANIFEST.json (validated on the unchanged tree)
+READY = ['C04', 'C16', 'C18']
 
 CHECKS = {
+    'C01': dict(
+        text='Bounded model checking over all doubles: (E) the public nested::hash at concrete depths is total and in range for every lon in [-25.2, 25.2] and lat in '
+             '[-pi/2, pi/2] under libm contracts; (R)+(P) the real base-cell / in-cell computation satisfies the range facts the scaling relies on and agrees with the '
+             'reference projection within 2^-46; (S) the exponent-bit scaling, clamp and bit interleaving give exactly floor of the scaled in-cell coordinates for every depth 0..29 '
+             '(symbolic) and every interface value; (G) out-of-range or NaN latitudes panic. Counter-examples are confirmed natively against a reference projection + point-in-diamond oracle.',
+        design_ref='DESIGN.md sections 3.2, 3.3, 5 C01',
+        note='Assumes the libm contracts (validated on the platform libm each run) and the assume-guarantee cut at Layer::d0h_lh_in_d0c (R proved on the producer, assumed by the consumer). '
+             'P in the polar caps is decided for cosines with <= 10 significant bits (a second symbolic 53x53 multiplier is out of reach for SAT). |lon| <= 25.2.',
+    ),
+    'C02': dict(
+        text='hash at depth d equals hash at depth d+1 shifted by 2 bits for every finite in-cell coordinate pair satisfying lemma R (all doubles, incl. values on and 1 ulp around every cell border) '
+             'and every d in 0..28 (symbolic); lemma R itself is decided on the real producer for every position. Non-adjacent depths follow by transitivity.',
+        design_ref='DESIGN.md sections 3.3, 5 C02',
+        note='Assume-guarantee cut at the depth-independent Layer::d0h_lh_in_d0c (no self parameter: depth independence by signature); libm contracts for lemma R.',
+    ),
+    'C03': dict(
+        text='Plane-level consistency of every accessor, per depth, for every cell: centre = plane oracle and hashes back with offsets (0.5, 0.5); interior offsets k/1024 hash back and are recovered; '
+             'vertex / vertices / vertices_map bit-identical and = centre +- 1/nside; every edge-path / grid point lies on the cell and, nudged inwards, hashes back; hash_with_dxdy is total on the whole '
+             'HEALPix image, in range, offsets in [-2^-40, 1], returns a cell containing the point, and sph_coo inverts it; out-of-range cell numbers panic for all 9 accessors.',
+        design_ref='DESIGN.md sections 3.3, 5 C03',
+        note='Plane cut: proj returns an arbitrary image point (guarantee I, decided in C17), unproj is the identity on the plane. The hash (hash_v2) vs hash_with_dxdy clause and the 1e-13 rad figure '
+             'are evaluated only by the native oracle when a counter-example is replayed.',
+    ),
+    'C06': dict(
+        text='Discrete clauses only: a radius >= pi gives exactly the 12 full base cells for every centre (incl. NaN) and every (depth, delta_depth) listed; pack leaves no four full siblings and '
+             'preserves the cell->state map; the recursive descent pushes full / partial / descends exactly according to the per-level thresholds and always produces a well formed sequence, '
+             'whatever the distances are.',
+        design_ref='DESIGN.md section 5 C06',
+        note='NOT decided: that distance <= min means "entirely inside the cone", and the radius + 2*c2v tightness (true haversine distance and c2v envelope). A threshold-logic counter-example has no '
+             'public-API replay and is reported as inconclusive (exit 2).',
+    ),
+    'C07': dict(
+        text='On canonical plain MOCs (all full, packed) of bounded shape, not/and/or/xor equal complement/intersection/union/symmetric difference pointwise for a symbolic probe cell, outputs are well '
+             'formed, and/not outputs are packed, equals implies equal sets, a xor a is empty; or/xor packedness = well-formedness here + the pack lemma (C15 harnesses).',
+        design_ref='DESIGN.md section 5 C07/C08',
+        note='Bounds: depth_max <= 2, operand shapes listed in the evidence. Allocator-growth model and pack cut as stated in the assumptions.',
+    ),
+    'C08': dict(
+        text='Three-valued semantics (absent/partial/full) of not/and/or/xor decided pointwise for a symbolic probe cell on operands with arbitrary flags and depths of bounded shape, '
+             'including a low-resolution partial cell meeting deeper full cells and operands of different depth_max; every output well formed.',
+        design_ref='DESIGN.md section 5 C07/C08',
+        note='Bounds: depth_max <= 2, operand shapes listed in the evidence (quick: and up to (2,2), not (1), or/xor (1,1)). Allocator-growth model and pack cut as stated.',
+    ),
+    'C09': dict(
+        text='For every valid BMOC of bounded shape: into_iter decodes the entries, flat_iter / flat_iter_cell / to_flat_array enumerate exactly the covered deepest-level cells in increasing order with the '
+             'right flags, deep_size is their number, to_ranges is sorted, disjoint, non adjacent and covers the same set; the public builder stores the documented raw layout; operator outputs are well formed.',
+        design_ref='DESIGN.md section 5 C09',
+        note='Bounds in the evidence. Outputs of cone / polygon / ellipse queries are covered only structurally (C06 recursion harness for the cone).',
+    ),
+    'C10': dict(
+        text='Per depth and region: to_ring(from_ring(r)) = r and from_ring(to_ring(h)) = h on the whole range, consecutive RING indices have strictly increasing (-Y, X) centre keys (plane oracle), '
+             'the RING-scheme centre of r equals the NESTED centre of from_ring(r) and the oracle centre; deep polar caps: first/last cells of ring windows.',
+        design_ref='DESIGN.md section 5 C10',
+        note='Polar caps: every index only up to depth 2 (quick) / 8 (thorough); at depths 26 and 29 only the ring ends of windows of 64 rings. Equatorial region: every index at the listed depths.',
+    ),
+    'C11': dict(
+        text='Per nside: every image point hashes to a cell number in range with offsets in [0, 1] whose diamond (centre +- 1/nside) contains the point; the centre of every cell hashes back with offsets (0.5, 0.5); '
+             'sph_coo inverts hash_with_dxdy; consecutive centres are ordered (non-increasing latitude, increasing longitude); out-of-range numbers / latitudes panic.',
+        design_ref='DESIGN.md section 5 C11',
+        note='Plane cut as in C03. nside values listed in the evidence (quick: 1, 2, 3, 5).',
+    ),
+    'C14': dict(
+        text='Per (depth, delta_depth), for every cell: internal_edge is the closed walk S->E->N->W of the border descendants, the sorted variant is the same set increasing, corner/side helpers match; '
+             'external_edge(_sorted) list exactly the outside cells of the deeper depth sharing a vertex with a border descendant (plane oracle, seams included), without duplicates; the structured variant files '
+             'each under the corner / side it faces.',
+        design_ref='DESIGN.md section 5 C14',
+        note='Bounds: (depth, delta) pairs listed in the evidence, delta <= 2 (quick).',
+    ),
+    'C15': dict(
+        text='pack preserves the cell->state map, well-formedness and leaves no four full siblings for every valid sequence of bounded length; to_lower_depth keeps a coarse cell iff something overlapped it and marks '
+             'it full only if covered by a full cell; the fixed-depth builder returns exactly the pushed set with the flag for every push order / duplicates / buffer capacity of bounded size, None iff nothing pushed.',
+        design_ref='DESIGN.md section 5 C15',
+        note='Bounds: <= 4 entries / pushes, depth <= 2, capacities 1..4 (evidence). In fixed-depth-builder harnesses the pack step of or is cut (decided by the pack harnesses).',
+    ),
+    'C17': dict(
+        text='For every double position: proj is in [-8,8]x[-2,2] with the sign of lon, inside the HEALPix image facets, and equals the Calabretta-Roukema formulae within 2^-46 from the same libm values; '
+             'unproj is in range with the right sign on the whole plane domain; base_cell_from_proj_coo returns a base cell whose closed diamond contains the point for every image point; out-of-range lat / y panic.',
+        design_ref='DESIGN.md section 5 C17',
+        note='The two 1e-14 round trips depend on the accuracy of the actual libm and are evaluated only by the native oracle on replay, not decided by the solver. Polar reference clause: cosines with <= 10 significant bits.',
+    ),
+    'C19': dict(
+        text='Per depth, for every image point: four weights in [0, 1] summing to 1 within 1e-12, cells = the cell of the point or its neighbours, that cell present, weight 1 on it at its centre, '
+             'zero-weight filler next to a three-cell point, barycentre = the position when the four cells share a base cell.',
+        design_ref='DESIGN.md section 5 C19',
+        note='Plane cut as in C03; hash_with_dxdy range facts assumed here and decided in C03.',
+    ),
     'C04': dict(
         text='Bounded model checking per depth: for EVERY cell a and EVERY other cell c of the depth (both symbolic) the neighbour map of a is '
              'compared with an integer plane-geometry oracle (vertex coordinates in units of 1/nside, polar-cap seam identifications): each '
